@@ -19,6 +19,9 @@ class EventControlT final
 	template <typename, typename>
 	friend struct PostReactWrapperT;
 
+	template <typename, typename, Prong, typename...>
+	friend struct OS_;
+
 	using FullControl	= FullControlT<TArgs>;
 
 	using FullControl::FullControl;
